@@ -41,6 +41,8 @@ def one(d, props, skip_tests):
         rc0, out0 = run([PY, os.path.join(d, "demo.py")], cwd=wt, env=env, timeout=600)
         res["demo_pristine_ok"] = rc0 == 0
         rc, out = run(["git", "-C", wt, "apply", "--whitespace=nowarn", os.path.join(d, "patch.diff")])
+        if rc != 0:
+            rc, out = run(["git", "-C", wt, "apply", "--3way", "--whitespace=nowarn", os.path.join(d, "patch.diff")])
         res["patch_applies"] = rc == 0
         if rc != 0:
             res["error"] = out[-400:]
